@@ -669,7 +669,24 @@ def _run_controls(ctx):
         if any(r[0] != core.DISCHARGED for r in res):
             raise core.AnalysisError(f"negative control not silent: {text!r} -> {res}")
         n += 1
+    # C19.4 has no instance on a healthy tree: one snippet on which it must fire, two on which it must not
+    import types
+    for text, want in _CONTROLS_DIVISION:
+        tree = ast.parse(text)
+        got = []
+        shim = types.SimpleNamespace(sources=types.SimpleNamespace(tree=lambda rel, t=tree: t), bad=lambda *a, **k: got.append(a), unk=lambda *a, **k: None)
+        lossy_division(shim, [x for x in tree.body if isinstance(x, ast.FunctionDef)][0], "<control>")
+        if bool(got) != want:
+            raise core.AnalysisError(f"control for C19.4 {'did not fire' if want else 'not silent'}: {text!r}")
+        n += 1
     return n
+
+
+_CONTROLS_DIVISION = [
+    ("W = 1 << 32\ndef f(v):\n    if v < W:\n        return '%x' % v\n    hi = int(v / W)\n    lo = v % W\n    return '%x%08x' % (hi, lo)\n", True),
+    ("W = 1 << 32\ndef f(v):\n    hi = v // W\n    lo = v % W\n    return '%x%08x' % (hi, lo)\n", False),
+    ("W = 1 << 32\ndef f(v):\n    if v >= 1 << 53:\n        return hex(v)[2:]\n    hi = int(v / W)\n    return '%x' % hi\n", False),
+]
 
 
 def check_api_binding(ctx):
